@@ -158,7 +158,7 @@ def time_limit(seconds):
 
 
 _TIMEOUTS = [0]
-PY_LIMIT = 120      # seconds for one instrumented pure-Python kernel run (normally < 3 s)
+PY_LIMIT = 60      # seconds for one instrumented pure-Python kernel run (normally < 3 s)
 TF_LIMIT = 20       # seconds for one tfmodisco_seqlets call (normally < 1 s)
 
 # ----------------------------------------------------------------------------------------
@@ -211,6 +211,9 @@ def run_rec(inp):
         out['split_error'] = str(e)
         run = None
     if run is not None:
+        if _TIMEOUTS[0] >= 3:       # the implementation loops: do not wait again, fail closed
+            out['timeout'] = True
+            return out
         try:
             with time_limit(PY_LIMIT):
                 raw = run(Xnp.copy(), *args, lambda i, pm, cs: caps.append((int(i), pm, cs)))
@@ -267,6 +270,9 @@ def run_tf(inp):
 
     seqlet._iterative_extract_seqlets = wrapper
     try:
+        if _TIMEOUTS[0] >= 3:
+            cap['skipped'] = True
+            raise ImplTimeout()
         with time_limit(TF_LIMIT):
             df = seqlet.tfmodisco_seqlets(X, window_size=inp['window'], flank=inp['flank'],
                                           target_fdr=inp.get('fdr', 0.2))
@@ -281,7 +287,10 @@ def run_tf(inp):
     finally:
         seqlet._iterative_extract_seqlets = orig
     out['unchanged'] = bool(torch.equal(X, keep))
-    if cap:
+    if cap.get('skipped'):
+        out['scores'] = None
+        out['skipped'] = True
+    elif cap:
         out['scores'] = cap['scores'].to(torch.float64).tolist()
         out['cap'] = [cap['window'], cap['flank'], cap['suppress']]
     else:
@@ -406,7 +415,7 @@ def coq_rec(inp, out):
 def coq_tf(inp, out):
     prec = 24 if inp['dtype'] == 'f32' else 53
     if out.get('scores') is None:
-        if out.get('pub') is None and not inp.get('expect_ok'):
+        if out.get('pub') is None and not inp.get('expect_ok') and not out.get('skipped'):
             return DUMMY            # the (unverified) statistical front end raised on this track
         return BROKEN
     X = out['X']
@@ -524,7 +533,7 @@ def gen_tf(rng, big):
 
 def generate(tier, rng):
     quick = tier != 'thorough'
-    n_rec, n_big, n_tf = (90, 6, 50) if quick else (700, 60, 400)
+    n_rec, n_big, n_tf = (90, 6, 50) if quick else (500, 40, 300)
     for _ in range(n_rec):
         yield gen_rec(rng, False)
     for _ in range(n_big):
@@ -557,3 +566,30 @@ def shrink(inp):
             yield dict(inp, dtype='f64')
         if inp.get('container') != 'numpy':
             yield dict(inp, container='numpy')
+
+
+def search(rng, disagreeing):
+    """Boundary-directed extra inputs: every seqlet-producing bump sits next to an edge and the
+    flanks are large, so that clipping at 0 and at l is exercised."""
+    for inp in disagreeing[:5]:
+        if inp['kind'] == 'rec' and 'X' not in inp:
+            for f in (1, 3, 5):
+                w = min(inp['max'] + 1, 12)
+                yield dict(inp, flanks=f, bumps=[[0, 1, w, 4.0 * inp.get('noise', 1.0)],
+                                                 [0, inp['l'] - w - 1, w, -4.0 * inp.get('noise', 1.0)]])
+    for _ in range(24):
+        inp = gen_rec(rng, False)
+        w = min(inp['max'] + 1, 12)
+        a = 4.0 * inp['noise']
+        inp['bumps'] = [[i, 1, w, a] for i in range(inp['n'])] + [[i, inp['l'] - w - 1, w, -a] for i in range(inp['n'])]
+        inp['flanks'] = rng.choice([2, 3, 4, 5])
+        inp['thr'] = max(inp['thr'], 0.05)
+        if not front_end_must_raise(make_track(inp), inp['min'], inp['max']):
+            yield inp
+    for _ in range(12):
+        inp = gen_tf(rng, False)
+        inp['window'] = rng.choice([1, 2, 3, 5])
+        inp['flank'] = rng.choice([0, 1, 2, 3])
+        inp['bumps'] = [[i, 0, 6, 4.0 * inp['noise']] for i in range(inp['n'])] + \
+                       [[i, inp['l'] - 6, 6, 4.0 * inp['noise']] for i in range(inp['n'])]
+        yield inp
